@@ -71,3 +71,34 @@ func HarnessT_C19_JSONPatchHugeIndex() {
 	op := map[string]interface{}{"op": kind, "path": "/a/" + idx, "from": "/x", "value": "v"}
 	c19Apply([]interface{}{op})
 }
+
+// Harness_C19_JSONPatchIntoOwnSource: move/copy of an array element (an object) to a location below an element of
+// the same array (or of another array: the control that applies), both index tokens arbitrary strings of 1..2 bytes ("0", "00", "+0", "-1", "-2", "1", ...): "pointers
+// into their own source" in every spelling the patch library resolves to the same element.
+func Harness_C19_JSONPatchIntoOwnSource() {
+	doc := c11Doc()
+	doc["b"] = []interface{}{map[string]interface{}{"k": "v"}, map[string]interface{}{"k": "w"}}
+	doc["c"] = []interface{}{map[string]interface{}{"k": "x"}}
+	target := []string{"/b/", "/c/"}[verifrt.Choose("target-array", 2)] // the same array, or another one (no aliasing)
+	t0 := verifrt.AnyStr("from-index", 1+verifrt.Choose("from-index-len", 2))
+	t1 := verifrt.AnyStr("path-index", 1+verifrt.Choose("path-index-len", 2))
+	for i := 0; i < len(t0); i++ {
+		verifrt.Assume(t0[i] != '/' && t0[i] != '~' && t0[i] != '"' && t0[i] != '\\' && t0[i] >= 0x20 && t0[i] < 0x7f)
+	}
+	for i := 0; i < len(t1); i++ {
+		verifrt.Assume(t1[i] != '/' && t1[i] != '~' && t1[i] != '"' && t1[i] != '\\' && t1[i] >= 0x20 && t1[i] < 0x7f)
+	}
+	kind := []string{"copy", "move"}[verifrt.Choose("kind", 2)]
+	op := map[string]interface{}{"op": kind, "from": "/b/" + t0, "path": target + t1 + "/y"}
+	p := patch.Patch{patch.ActionKey: patch.JSONPatch, patch.PatchesKey: []interface{}{op}}
+	if patchvalidator.Validate(p) != nil {
+		verifrt.Reach("refused-by-validation")
+		return
+	}
+	_, err := New().ApplyPatches(doc, []patch.Patch{p})
+	if err != nil {
+		verifrt.Reach("error")
+		return
+	}
+	verifrt.Reach("applied")
+}
